@@ -203,6 +203,7 @@ ideal_chacha_ietf_xor(uint8_t *c, const uint8_t *m, size_t len, const uint8_t ke
 #ifndef REPLAY
 /* ------------------------------------------------------------------ */
 /* the public primitive API, as seen by the glue code under test        */
+#ifndef IDEAL_IMPL_LEVEL /* IDEAL_IMPL_LEVEL: the real stream dispatchers are linked; see ideal_impl.c */
 int
 crypto_stream_chacha20(unsigned char *c, unsigned long long clen, const unsigned char *n, const unsigned char *k)
 {
@@ -276,6 +277,7 @@ crypto_stream_salsa20_xor(unsigned char *c, const unsigned char *m, unsigned lon
     ideal_salsa_xor(20, c, m, mlen, k, 0, n);
     return 0;
 }
+#endif /* IDEAL_IMPL_LEVEL */
 int
 crypto_core_hchacha20(unsigned char *out, const unsigned char *in, const unsigned char *k, const unsigned char *c)
 {
